@@ -123,7 +123,8 @@ var ProfileC02 = &Profile{
 
 // chain-level part of C05: join/exit dominated histories, swaps and price moves only now and then
 var ProfileC05 = &Profile{
-	ID: "C05", Name: "lp-value", MinBlocks: 6, MaxBlocks: 40, MaxTxs: 4, Spec: withSkew(specDefault), Check: CheckC05Chain,
+	MultiMsg: true,
+	ID:       "C05", Name: "lp-value", MinBlocks: 6, MaxBlocks: 40, MaxTxs: 4, Spec: withSkew(specDefault), Check: CheckC05Chain,
 	Weights: map[string]int{"amm.join": 16, "amm.exit": 18, "leveragelp.open": 5, "leveragelp.close": 4, "amm.swap_in": 3, "amm.swap_out": 2,
 		"oracle.feed_price": 2, "perpetual.open": 1, "perpetual.close": 2, "stablestake.bond": 2, "bank.send": 1},
 	Rule: "history with >=3 judged pool-blocks (only joins/exits, unchanged prices, no perpetual exposure) of which >=1 after an exit, and >=1 successful single-denom exit",
@@ -135,7 +136,8 @@ var ProfileC05 = &Profile{
 // chain-level part of C03: swap-dominated histories (several swaps per block against the same pools, both
 // directions and forms), few price moves, almost no perpetual exposure
 var ProfileC03 = &Profile{
-	ID: "C03", Name: "swap-value", MinBlocks: 6, MaxBlocks: 40, MaxTxs: 6, Spec: withSkew(specDefault), Check: CheckC03Chain,
+	MultiMsg: true,
+	ID:       "C03", Name: "swap-value", MinBlocks: 6, MaxBlocks: 40, MaxTxs: 6, Spec: withSkew(specDefault), Check: CheckC03Chain,
 	Weights: map[string]int{"amm.swap_in": 14, "amm.swap_out": 14, "amm.swap_in_2hop": 4, "amm.swap_out_2hop": 4, "amm.swap_by_denom": 3, "amm.join": 4, "amm.exit": 4,
 		"oracle.feed_price": 2, "perpetual.open": 1, "perpetual.close": 2, "leveragelp.open": 1, "bank.send_to_pool": 1, "amm.feed_external_liquidity": 3, "tier.set_portfolio": 3},
 	Rule: "history with >=3 judged pool-blocks (only swaps/joins/exits, unchanged prices, no perpetual exposure) and >=1 block with >=2 successful swaps",
@@ -468,7 +470,8 @@ var ProfileC18Staking = func() *Profile {
 }()
 
 var ProfileC04 = &Profile{
-	ID: "C04", Name: "swap-batch", MinBlocks: 4, MaxBlocks: 25, MaxTxs: 4, Spec: specDefault, Check: CheckC04, ExtraOps: c04ExtraOps,
+	MultiMsg: true,
+	ID:       "C04", Name: "swap-batch", MinBlocks: 4, MaxBlocks: 25, MaxTxs: 4, Spec: specDefault, Check: CheckC04, ExtraOps: c04ExtraOps,
 	Weights: map[string]int{"amm.swap_in": 8, "amm.swap_out": 6, "amm.join": 4, "amm.exit": 3, "oracle.feed_price": 6, "perpetual.open": 3, "perpetual.close": 2, "stablestake.bond": 1, "amm.swap_in_2hop": 2, "amm.feed_external_liquidity": 2, "tier.set_portfolio": 2},
 	Gaps:    []time.Duration{time.Second, 5 * time.Second, 6 * time.Second},
 	Rule:    "history with >=2 accepted requests of one sender in a block, or an accepted request that was not executable at end-block (accepted but no balance effect), and >=1 two-hop request delivered to a passive recipient",
@@ -478,7 +481,8 @@ var ProfileC04 = &Profile{
 }
 
 var ProfileC07 = &Profile{
-	ID: "C07", Name: "vault-chain", MinBlocks: 5, MaxBlocks: 40, MaxTxs: 5, Spec: specLending, Check: CheckC07Chain, PreBlock: vaultGov,
+	MultiMsg: true,
+	ID:       "C07", Name: "vault-chain", MinBlocks: 5, MaxBlocks: 40, MaxTxs: 5, Spec: specLending, Check: CheckC07Chain, PreBlock: vaultGov,
 	Weights: withWeights(ProfileC06.Weights, map[string]int{"stablestake.bond": 14, "stablestake.unbond": 12, "leveragelp.open": 16}),
 	Gaps:    ProfileC06.Gaps,
 	Rule:    "history in which the vault share value had a long fractional part while lenders bonded and unbonded and a loan was granted",
@@ -488,7 +492,8 @@ var ProfileC07 = &Profile{
 }
 
 var ProfileC20 = &Profile{
-	ID: "C20", Name: "tradeshield", MinBlocks: 6, MaxBlocks: 40, MaxTxs: 4, Spec: specDefault, Check: CheckC20, ExtraOps: c20ExtraOps, Filter: c20Filter,
+	MultiMsg: true,
+	ID:       "C20", Name: "tradeshield", MinBlocks: 6, MaxBlocks: 40, MaxTxs: 4, Spec: specDefault, Check: CheckC20, ExtraOps: c20ExtraOps, Filter: c20Filter,
 	Weights: map[string]int{"tradeshield.execute": 14, "oracle.feed_price": 10, "amm.swap_in": 5, "amm.swap_out": 3, "perpetual.open": 3, "perpetual.close": 2, "amm.join": 2, "amm.exit": 2, "stablestake.bond": 1},
 	Gaps:    []time.Duration{time.Second, 5 * time.Second, 6 * time.Second, time.Hour + time.Second},
 	Rule:    "history with an execution request that left a named order pending (skipped or failed attempt) followed later by the owner's cancel of that order, and >=1 executed order",
@@ -505,7 +510,8 @@ var ProfileC20 = &Profile{
 }
 
 var ProfileC10 = &Profile{
-	ID: "C10", Name: "forced-close", MinBlocks: 6, MaxBlocks: 40, MaxTxs: 5, Spec: specDefault, Check: CheckC10,
+	MultiMsg: true,
+	ID:       "C10", Name: "forced-close", MinBlocks: 6, MaxBlocks: 40, MaxTxs: 5, Spec: specDefault, Check: CheckC10,
 	Weights: map[string]int{"stablestake.bond": 6, "leveragelp.open": 12, "leveragelp.close": 4, "leveragelp.close_positions": 8, "leveragelp.update_stop_loss": 3,
 		"perpetual.open": 14, "perpetual.close": 4, "perpetual.close_positions": 10, "perpetual.update_stop_loss": 3, "perpetual.update_take_profit": 2,
 		"oracle.feed_price": 12, "amm.swap_in": 4, "amm.swap_out": 2, "amm.join": 2, "amm.exit": 1},
